@@ -270,7 +270,7 @@ func runRacePart(rep *vevid.Report, f *vevid.Flags) {
 			vevid.Fatal("replay divergence in %s: %s", sc.Name, e.Diverged)
 		}
 		if e.Capped {
-			rep.Cap("deadline reached in scenario " + sc.Name)
+			rep.Cap(e.CapReason + " cap reached in scenario " + sc.Name)
 		}
 		rep.Evaluations += e.Executions
 		rep.States += e.Executions
